@@ -13,14 +13,17 @@ use std::sync::atomic::{AtomicBool, Ordering};
 pub struct Case {
     pub input: Vec<u8>,
     pub fill_seed: u32,
+    /// when not empty: the bytes the header was cut off from (the completion is then taken from them - what the sender
+    /// really sends next - as far as they reach)
+    pub tail: Vec<u8>,
 }
 
 impl CaseIo for Case {
     fn to_json(&self) -> serde_json::Value {
-        serde_json::json!({"input_hex": hex(&self.input), "fill_seed": self.fill_seed})
+        serde_json::json!({"input_hex": hex(&self.input), "fill_seed": self.fill_seed, "tail_hex": hex(&self.tail)})
     }
     fn from_json(v: &serde_json::Value) -> Option<Self> {
-        Some(Case { input: crate::engine::unhex(v.get("input_hex")?.as_str()?)?, fill_seed: v.get("fill_seed").and_then(|x| x.as_u64()).unwrap_or(1) as u32 })
+        Some(Case { input: crate::engine::unhex(v.get("input_hex")?.as_str()?)?, fill_seed: v.get("fill_seed").and_then(|x| x.as_u64()).unwrap_or(1) as u32, tail: v.get("tail_hex").and_then(|x| x.as_str()).and_then(crate::engine::unhex).unwrap_or_default() })
     }
     fn simpler(&self) -> Vec<Self> {
         let mut out = Vec::new();
@@ -28,12 +31,12 @@ impl CaseIo for Case {
             // drop payload bytes from the end
             for cut in [16usize, (self.input.len() + 16) / 2, self.input.len() - 1] {
                 if cut < self.input.len() {
-                    out.push(Case { input: self.input[..cut].to_vec(), fill_seed: self.fill_seed });
+                    out.push(Case { input: self.input[..cut].to_vec(), fill_seed: self.fill_seed, tail: vec![] });
                 }
             }
         }
         if self.fill_seed != 0 {
-            out.push(Case { input: self.input.clone(), fill_seed: 0 });
+            out.push(Case { input: self.input.clone(), fill_seed: 0, tail: vec![] });
         }
         out
     }
@@ -193,7 +196,11 @@ pub fn judge_with_at(c: &Case, x: &Vec<u8>, st: &mut Stats, deep: bool) -> Verdi
                 return Ok(());
             }
             let missing = need - have;
-            let extra = completion_bytes(c.fill_seed, missing);
+            let mut extra = completion_bytes(c.fill_seed, missing);
+            if !c.tail.is_empty() {
+                let k = c.tail.len().min(missing);
+                extra[..k].copy_from_slice(&c.tail[..k]);
+            }
             // supplying exactly the missing bytes gives a success
             let mut full = x.clone();
             full.extend_from_slice(&extra);
@@ -278,7 +285,7 @@ pub fn judge(c: &Case, st: &mut Stats) -> Verdict {
             y[12] = 0x20 | (c.fill_seed as u8 >> 7 & 1);
             y[13] = ((c.fill_seed >> 9) as u8 % 4) << 4 | ((c.fill_seed >> 11) as u8 % 3);
         }
-        let c2 = Case { input: y, fill_seed: c.fill_seed ^ 0x5a5a };
+        let c2 = Case { input: y, fill_seed: c.fill_seed ^ 0x5a5a, tail: vec![] };
         st.class("same-size-follow-up");
         // the receiver's last look at the first connection's segment (still short), then the buffer is handed to the next one
         crate::engine::in_arena(&c.input, |v| {
@@ -330,7 +337,7 @@ fn gen_case(t: &mut Tape) -> Case {
             _ => {}
         }
         let fill_seed = if t.chance(1, 3) { t.u32() | 3 } else { crate::engine::gen_seed(t) };
-        return Case { input: h, fill_seed };
+        return Case { input: h, fill_seed, tail: vec![] };
     }
     let h = match t.weighted(&[6, 2, 2]) {
         0 => gen::gen_v2_header(t).bytes,
@@ -364,7 +371,10 @@ fn gen_case(t: &mut Tape) -> Case {
     };
     // completion content: one case in three uses the TLV-structured class (seed = 3 mod 4)
     let fill_seed = if t.chance(1, 3) { t.u32() | 3 } else { crate::engine::gen_seed(t) };
-    Case { input: h[..cut.min(h.len())].to_vec(), fill_seed }
+    let cut = cut.min(h.len());
+    // one case in three is completed with the bytes it was cut off from
+    let tail = if cut < h.len() && t.chance(1, 3) { h[cut..].to_vec() } else { vec![] };
+    Case { input: h[..cut].to_vec(), fill_seed, tail }
 }
 
 pub fn run(r: &mut Runner) -> &'static str {
@@ -437,7 +447,7 @@ pub fn run(r: &mut Runner) -> &'static str {
                     let boundary = have == 16 + need && lu > need;
                     if !exact || !completion_ok || (deep && have >= 16 && (have + 1 == 16 + lu || boundary)) {
                         // on the address/TLV boundary the completion is TLV-structured (seed = 3 mod 4)
-                        let c = Case { input: x.to_vec(), fill_seed: if boundary { (seed ^ l) | 3 } else { seed ^ l } };
+                        let c = Case { input: x.to_vec(), fill_seed: if boundary { (seed ^ l) | 3 } else { seed ^ l }, tail: vec![] };
                         let mut scratch = Stats { frozen: true, ..Stats::default() };
                         if let Err(f) = judge_with(&c, &mut scratch, true) {
                             return Some((c, f));
@@ -467,7 +477,7 @@ pub fn run(r: &mut Runner) -> &'static str {
                         _ => false,
                     };
                     if bad {
-                        let c = Case { input: c_in.to_vec(), fill_seed: 1 };
+                        let c = Case { input: c_in.to_vec(), fill_seed: 1, tail: vec![] };
                         let mut scratch = Stats { frozen: true, ..Stats::default() };
                         if let Err(f) = judge_with(&c, &mut scratch, true) {
                             return Some((c, f));
